@@ -122,6 +122,12 @@ def oversubscribed(tokens, toks):
 def oracle_rest(w, trace, report, pid="C06"):
     """the run comes to rest: the controller always finds the scheduler quiescent with nothing pending
     after finitely many deliveries (bound: maxsteps controller actions, normal runs need < 150)"""
+    # the refusal at submission concerns exactly the jobs that can never start
+    for k in (trace.get("refused") or {}):
+        j = int(k)
+        if not oversubscribed(w["tokens"], w["jobs"][j]["toks"]):
+            report(f"{pid}:submission-refused-although-requests-fit",
+                   f"submit() refused job {j} ({trace['refused'][k]}): its requests {w['jobs'][j]['toks']} fit the totals {w['tokens']}")
     if trace.get("ended") != "maxsteps":
         return
     sn = last_snap(trace)
